@@ -710,7 +710,7 @@ func runJSON(c runCfg, prop string) error {
 				st, extra = "builderr", " detail="+dialect.Hx(p.BuildErr)
 			}
 			impl[i] = "SKIP gen=" + st + extra
-		case "UB":
+		case "UB", "XB":
 			p := byName[f[1]]
 			if p == nil || !p.OK() {
 				impl[i] = "SKIP pkg-unavailable"
@@ -760,7 +760,7 @@ func runJSON(c runCfg, prop string) error {
 	}
 	for k, i := range idx {
 		impl[i] = res[k]
-		if strings.HasPrefix(lines[i], "UB ") {
+		if strings.HasPrefix(lines[i], "UB ") || strings.HasPrefix(lines[i], "XB ") {
 			// the server's Parse(): accepted (with the JSON the parsed body re-encodes to) or rejected (with the error)
 			kv := map[string]string{}
 			for _, t := range strings.Fields(res[k]) {
@@ -866,6 +866,22 @@ func jsonCases(c runCfg, prop string) ([]*scratch.Pkg, []string, map[string]inte
 			s.Dialect(&comps)
 			tops = append(tops, s)
 			names = append(names, "TAl")
+			kinds[s.Kind]++
+		}
+		// one type that combines nullable with arrays of arrays written in place (nil inner slices are [] at every depth, null
+		// only where the schema says nullable)
+		{
+			i64 := func() *JS { return &JS{Kind: "int", Bits: 64} }
+			s := &JS{Kind: "obj", Ref: "TGrid", Members: []JM{
+				{Name: "cells", Req: false, S: &JS{Kind: "null", Inner: &JS{Kind: "arr", Inner: i64()}}},
+				{Name: "grid", Req: true, S: &JS{Kind: "null", Inner: &JS{Kind: "arr", Inner: &JS{Kind: "arr", Inner: i64()}}}},
+				{Name: "id", Req: true, S: &JS{Kind: "str"}},
+				{Name: "opt", Req: false, S: &JS{Kind: "null", Inner: &JS{Kind: "arr", Inner: &JS{Kind: "arr", Inner: &JS{Kind: "str"}}}}},
+				{Name: "rows", Req: false, S: &JS{Kind: "arr", Inner: &JS{Kind: "arr", Inner: i64()}}},
+			}}
+			s.Dialect(&comps)
+			tops = append(tops, s)
+			names = append(names, "TGrid")
 			kinds[s.Kind]++
 		}
 		// oneOf types (variant choice modelled in Model/OneOf.v): variants told apart by a required key of
@@ -1058,9 +1074,19 @@ func jsonCases(c runCfg, prop string) ([]*scratch.Pkg, []string, map[string]inte
 			serverBody[pkg+" "+names[ti]] = true
 			bodyOps++
 		}
+		// a nullable object component that IS the request body (by $ref): null is a valid body, and the required key is still
+		// demanded of an object (not modelled: expectations by hand)
+		sp.CompSchemas = append(sp.CompSchemas, dialect.Prop{Name: "NBody", Schema: &dialect.Schema{Type: "object", Nullable: true, Required: []string{"login"},
+			Props: []dialect.Prop{{Name: "login", Schema: &dialect.Schema{Type: "string"}}, {Name: "note", Schema: &dialect.Schema{Type: "string"}}}}})
+		sp.Paths = append(sp.Paths, &dialect.PathItem{Raw: "/t/NBody", Ops: []*dialect.Op{{Method: "POST",
+			Body: &dialect.Body{Content: "application/json", Schema: &dialect.Schema{Ref: "NBody"}, Required: true}, Responses: []dialect.Response{{Status: "200"}}}}})
 		p := &scratch.Pkg{Name: pkg, Doc: sp.Doc(), Opts: gen.Options{API: true, DoNotEdit: true}}
 		pkgs = append(pkgs, p)
 		lines = append(lines, DLine(p))
+		for _, xb := range [][2]string{{"null", "accept"}, {`{"login":"x"}`, "accept"}, {`{"login":"x","note":"n"}`, "accept"}, {`{}`, "reject"}, {`{"note":"n"}`, "reject"},
+			{`{"login":1}`, "reject"}, {`[]`, "reject"}, {` null `, "accept"}} {
+			lines = append(lines, "XB "+pkg+" NBody "+dialect.Hx(xb[0])+" #exp="+xb[1])
+		}
 		for ti, s := range tops {
 			lines = append(lines, "J "+pkg+" "+names[ti]+" "+s.Model())
 			or := &oracle{seen: map[string]bool{}}
